@@ -1,0 +1,18 @@
+//go:build verif
+
+package dbutils
+
+// Contracts for gocv (contract-based deductive verification, /verif).
+
+//@ func UpperBound
+//@   props C15
+//@   arith int
+//@   loop i: invariant bounds: -1 <= i && i < len(prefix)
+//@   loop i: invariant tail: forall j int :: i < j && j < len(prefix) ==> prefix[j] == 255
+//@   loop i: decreases i + 1
+//@   ensures nil_iff: (result == nil) <==> (forall j int :: 0 <= j && j < len(prefix) ==> prefix[j] == 255)
+//@   ensures len: result != nil ==> 1 <= len(result) && len(result) <= len(prefix)
+//@   ensures last: result != nil ==> prefix[len(result)-1] != 255 && result[len(result)-1] == prefix[len(result)-1] + 1
+//@   ensures tail: result != nil ==> (forall j int :: len(result) <= j && j < len(prefix) ==> prefix[j] == 255)
+//@   ensures head: result != nil ==> (forall j int :: 0 <= j && j < len(result)-1 ==> result[j] == prefix[j])
+//@   ensures input_unchanged: forall j int :: 0 <= j && j < len(prefix) ==> prefix[j] == old(prefix[j])
